@@ -18,19 +18,430 @@ def g_parse_tokens(nmax, **kw):
                asserts=['accept-iff-grammar', 'node-xor-error'], cost=10, **kw)
 
 
+ML = ['inLicenseList']
+LEX_FUNCS = ['scan', 'hasMore', 'parseToken', 'readRegex', 'read', 'skipWhitespace', 'readOperator', 'readID', 'readDocumentRef', 'readLicenseRef',
+             'readLicense', 'normalizeLicense', 'licenseLookup', 'deprecatedLicenseLookup', 'activeLicense', 'deprecatedLicense', 'exceptionLicense', 'inLicenseList']
+LEX_ID_ASSERTS = ['error-only-for-unknown-id', 'unknown-id-rejected', 'token-role', 'exception-token-iff-exception-id', 'token-equals-reference', 'only-suffix-stripped',
+                  'plus-folded-into-or-later', 'or-later-rewritten-to-plus', 'list-spelling-active', 'unread-input-preserved', 'index-in-range',
+                  'error-cites-lexeme-and-offset', 'error-index-at-lexeme']
+
+
+def g_lex(tier, seed, **kw):
+    mmax = 24 if tier == 'quick' else 47
+    shapes = [(0, 0), (0, 1), (2, 2)] if tier == 'quick' else [(0, 0), (0, 1), (1, 1), (2, 2), (1, 3), (2, 0)]
+    idj = [[p, m, c] for m in range(1, mmax + 1) for (p, c) in shapes]
+    gs = [grp('L-LEX/id', 'VH_lexID', idj, merge=ML, cost=12,
+              bound='one scanner step on a run of m <= %d id characters at index p with c following bytes, (p,c) in %s' % (mmax, shapes),
+              symbolic='all bytes of the buffer', asserts=LEX_ID_ASSERTS, **kw)]
+    rj = [[p, w, m, c] for p in (0, 2) for w in 'DL' for m in (0, 1, 3, 6) for c in (0, 1, 2)]
+    gs.append(grp('L-LEX/ref', 'VH_lexRef', rj, cost=1, bound='DocumentRef-/LicenseRef- followed by m in {0,1,3,6} id characters', symbolic='all other bytes',
+                  asserts=['missing-id-rejected', 'missing-id-offset', 'ref-accepted', 'ref-id-verbatim', 'unread-input-preserved'], **kw))
+    oj = [[p, k, c] for p in (0, 1, 2) for k in range(7) for c in (0, 1, 2)]
+    gs.append(grp('L-LEX/operator', 'VH_lexOp', oj, cost=1, bound='each operator at index p in {0,1,2} followed by 0-2 bytes', symbolic='bytes before and after',
+                  asserts=['operator-accepted', 'plus-after-space-rejected', 'token-equals-reference', 'unread-input-preserved'], **kw))
+    gs.append(grp('L-LEX/stray', 'VH_lexOther', [[p, c] for p in (0, 1, 2) for c in (0, 1, 2)], cost=1, bound='a byte that starts no lexeme', symbolic='all bytes',
+                  asserts=['stray-byte-rejected', 'no-token-on-error'], **kw))
+    gs.append(grp('L-LEX/spaces', 'VH_lexSkip', [[n, p] for n in range(0, 6) for p in range(0, n + 1)], cost=1, bound='buffers of <= 5 bytes', symbolic='all bytes',
+                  asserts=['index-in-range', 'buffer-unchanged'], **kw))
+    return gs
+
+
+def g_bytes(lmax, **kw):
+    return grp('E2E/bytes', 'VH_bytes', [[l] for l in range(0, lmax + 1)], cost=50,
+               bound='every byte string of length <= %d through ValidateLicenses, ExtractLicenses, Satisfies' % lmax, symbolic='all bytes (256 values each)',
+               asserts=['flag-iff-none-invalid', 'extract-err-iff-invalid', 'satisfies-err-iff-invalid', 'false-or-nil-on-error', 'empty-list-errs'], **kw)
+
+
+def g_render(nmax, **kw):
+    return grp('render', 'VH_renderTokens', [[n, st] for n in range(1, nmax + 1) for st in ('tight', 'single', 'loose')], cost=20,
+               bound='every sequence of <= %d token classes rendered in tight / single / loose spacing' % nmax,
+               symbolic='token classes (forked: the text must be concrete)', asserts=['accept-iff-grammar', 'extract-err-iff-invalid', 'satisfies-err-iff-invalid'], **kw)
+
+
 def c03(tier, seed):
-    n = 6 if tier == 'quick' else 8
-    return [g_parse_tokens(n)]
+    q = tier == 'quick'
+    gs = [g_parse_tokens(7 if q else 9), g_bytes(4 if q else 5), g_render(3 if q else 4)]
+    gs += g_lex(tier, seed)
+    gs.append(grp('arg-shapes', 'VH_argShapes', [[]], cost=1, bound='nil / empty slices, empty strings', symbolic='none', asserts=['empty-list-errs']))
+    gs.append(grp('pool-lists', 'VH_lists', [[n] for n in range(0, 3 if q else 4)], merge=['parse', 'inLicenseList'], cost=5,
+                  bound='lists of <= %d strings from a pool of 27 valid / compound / invalid strings' % (2 if q else 3), symbolic='list elements', asserts=[]))
+    # L-SAT trees of all kinds: the expansion code
+    for name, jobs, n, m, cost in sat_jobs(tier, seed):
+        if name in ('n2', 'n3', 'n4', 'n5'):
+            gs.append(grp('L-SAT/' + name, 'VH_sat', jobs if not q else jobs[seed % 3::3], merge=MS, cost=cost, bound='%d-leaf trees of all kinds' % n, symbolic='allowed entries', asserts=[]))
+    return gs
+
+
+def c04(tier, seed):
+    q = tier == 'quick'
+    return [g_bytes(4 if q else 5), g_render(3 if q else 4),
+            grp('pool-flags', 'VH_poolKinds', [[]], cost=1, bound='the 27 pool strings', symbolic='pool index (forked)', asserts=['pool-flag-valid']),
+            grp('lists', 'VH_lists', [[n] for n in range(0, 4 if q else 5)], merge=['parse', 'inLicenseList'], cost=10,
+                bound='lists of <= %d strings from a pool of 27 valid / compound / invalid strings' % (3 if q else 4), symbolic='list elements (choice variables over the pool)',
+                asserts=['flag-iff-none-invalid', 'invalid-elements-in-order', 'args-unchanged']),
+            grp('arg-shapes', 'VH_argShapes', [[]], cost=1, bound='nil / empty slices, empty strings', symbolic='none', asserts=['empty-list-errs'])]
 
 
 def c05(tier, seed):
-    n = 6 if tier == 'quick' else 8
-    return [g_parse_tokens(n)]
+    q = tier == 'quick'
+    return [g_parse_tokens(7 if q else 9), g_render(3 if q else 4)] + g_lex(tier, seed)
+
+
+def c13(tier, seed):
+    q = tier == 'quick'
+    gs = []
+    tj = []
+    for n in (1, 2, 3) if q else (1, 2, 3, 4):
+        ts = trees(n)
+        for enc in ts:
+            for k in (['L' * n, ('RW' * 2)[:n]] if n < 4 else ['L' * n]):
+                tj.append([enc, k, ''.join(str(i) for i in range(n)), 'M', 2 if n < 3 else 3])
+    gs.append(grp('pure/trees', 'VH_pureTree', tj, merge=MS, cost=5, bound='valid expressions of <= %d leaves, allowed lists of 2-3 symbolic entries' % (3 if q else 4),
+                  symbolic='allowed entries', asserts=['args-unchanged', 'same-result-twice', 'no-output', 'no-mutable-global-write']))
+    gs.append(grp('pure/pool', 'VH_purePool', [[n] for n in range(0, 3 if q else 4)], merge=['parse', 'inLicenseList', 'getLicenseRange', 'isCompatible'], cost=20,
+                  bound='expression and list elements from the 27-string pool, lists of <= %d' % (2 if q else 3), symbolic='expression and list elements (choice variables)',
+                  asserts=['args-unchanged', 'same-result-twice', 'no-output', 'no-mutable-global-write']))
+    gs.append(grp('pure/bytes', 'VH_pureBytes', [[l] for l in range(0, 3 if q else 4)], cost=20, bound='byte strings of length <= %d' % (2 if q else 3),
+                  symbolic='all bytes', asserts=['args-unchanged', 'same-result-twice', 'no-output', 'no-mutable-global-write']))
+    return gs
+
+
+def c15(tier, seed):
+    q = tier == 'quick'
+    npre = 12
+    jobs = []
+    for pi in range(npre):
+        for k in (1, 2, 3) if q else (1, 2, 3, 4, 5):
+            jobs.append([pi, k, 'id'])
+        jobs.append([pi, 1, 'stray'])
+        for k in (0, 1):
+            jobs.append([pi, k, 'ref'])
+            jobs.append([pi, k, 'docref'])
+    return [grp('offsets', 'VH_offsets', jobs, merge=ML, cost=10,
+                bound='12 valid prefixes (with -or-later forms, +, spaces, parentheses, refs) followed by an unknown id of <= %d symbolic id characters, a stray byte, or a truncated reference' % (3 if q else 5),
+                symbolic='the bytes of the culprit', asserts=['offset-in-range', 'lexeme-at-offset', 'missing-id-offset'])]
+
+
+M = ['parse', 'getLicenseRange', 'inLicenseList']
+MATCH_FUNCS = ['Satisfies', 'parse', 'scan', 'stringsToNodes', 'sortAndDedup', 'expand', 'isCompatible', 'licensesAreCompatible', 'licenseRefsAreCompatible',
+               'exceptionsAreCompatible', 'licensesExactlyEqual', 'rangesAreCompatible', 'identifierInRange', 'rangesEqual', 'compareGT', 'compareEQ',
+               'sameLicenseGroup', 'getLicenseRange', 'simplifyLicense', 'reconstructedLicenseString', 'spdxlicenses.LicenseRanges', 'inLicenseList',
+               'normalizeLicense', 'licenseLookup', 'deprecatedLicenseLookup', 'readLicense', 'readID', 'readRegex', 'readOperator', 'parseLicense', 'parseWith']
+EXC = ['Bison-exception-2.2', 'Classpath-exception-2.0', 'LLVM-exception', 'GCC-exception-3.1', 'Autoconf-exception-3.0', 'OCaml-LGPL-linking-exception']
+
+
+def pick_exc(seed):
+    return EXC[seed % len(EXC)], EXC[(seed + 1) % len(EXC)]
+
+
+def c02(tier, seed):
+    e1, e2 = pick_exc(seed)
+    jobs = []
+    excs = [('-', '-'), (e1, e1), (e1, e2), (e1, '-'), ('-', e1)]
+    if tier == 'thorough':
+        excs += [(e2, e2), (e2, e1), (e2, '-'), ('-', e2)]
+    for pa in '01':
+        for pb in '01':
+            for ea, eb in excs:
+                jobs.append(['L', pa, ea, 'L', pb, eb])
+    gs = [grp('L-MATCH/license-license', 'VH_match', jobs, merge=M, cost=30,
+              bound='all ordered pairs of the %s ids a term can carry (active + deprecated), each plain or with +, exception none / same / different (2 seed-chosen exception ids)' % 'listed',
+              symbolic='two ids (choice variables over the whole lists)',
+              asserts=['valid-terms-accepted', 'match-iff-documented', 'match-symmetric', 'match-reflexive'])]
+    rj = [['R', '0', '-', 'R', '0', '-']]
+    for p in '01':
+        rj += [['L', p, '-', 'R', '0', '-'], ['R', '0', '-', 'L', p, '-'], ['L', p, e1, 'R', '0', '-']]
+    gs.append(grp('L-MATCH/refs', 'VH_match', rj, merge=M, cost=3,
+                  bound='7 LicenseRef / DocumentRef:LicenseRef texts against each other and against every license id',
+                  symbolic='reference text (choice variable), license id (choice variable)',
+                  asserts=['valid-terms-accepted', 'match-iff-documented', 'match-symmetric', 'match-reflexive']))
+    return gs
+
+
+def c08(tier, seed):
+    e1, e2 = pick_exc(seed)
+    gs = []
+    jobs = []
+    for pair in ('plus', 'only'):
+        for role in ('term', 'allowed'):
+            for py in '01':
+                for ex, ey in (('-', '-'), (e1, e1)) if tier == 'quick' else (('-', '-'), (e1, e1), (e1, '-'), (e1, e2)):
+                    jobs.append([pair, 'bare', role, py, ex, ey])
+        for ctx in ('paren', 'and', 'andparen', 'or'):
+            jobs.append([pair, ctx, 'valid', '0', '-', '-'])
+            jobs.append([pair, ctx, 'valid', '0', e1, '-'])
+        jobs.append([pair, 'paren', 'term', '0', '-', '-'])
+        jobs.append([pair, 'andparen', 'term', '1', '-', '-'])
+    gs.append(grp('spellings', 'VH_spell', jobs, merge=M, cost=40,
+                  bound='X over all listed ids, both spellings valid; Y over all listed ids with/without +, with/without exception; contexts bare, (..), .. AND MIT, (MIT AND ..), MIT OR ..',
+                  symbolic='ids X and Y (choice variables over the whole lists)', asserts=['same-validity', 'spellings-interchangeable']))
+    gs.append(grp('both-valid', 'VH_bothValid', [['plus'], ['only']], merge=M, cost=5,
+                  bound='every active id', symbolic='id (choice variable)', asserts=['both-spellings-valid']))
+    return gs
+
+
+def n_ids():
+    import re, os
+    from core import REPO
+    def cnt(f):
+        return len(re.findall(r'^\t\t"', open(os.path.join(REPO, 'spdxexp/spdxlicenses', f)).read(), re.M))
+    return cnt('get_licenses.go'), cnt('get_deprecated.go'), cnt('get_exceptions.go')
+
+
+def c09(tier, seed):
+    na, nd, ne = n_ids()
+    step = 16
+    jobs = []
+    for lo in range(0, na + nd + 8, step):
+        jobs.append(['ids', lo, lo + step - 1, 'plain'])
+    vj = []
+    for lo in range(0, na + nd + 8, step):
+        vj.append(['ids', lo, lo + step - 1, 'plus'])
+        vj.append(['ids', lo, lo + step - 1, 'with'])
+    ej = [['exception', lo, lo + step - 1, 'plain'] for lo in range(0, ne + 8, step)]
+    dj = [['deprecated', lo, lo + step - 1, 'plain'] for lo in range(0, nd + 8, step)]
+    gs = [grp('case/licenses', 'VH_case', jobs, cost=5, bound='every id a term can carry, all 2^letters case masks',
+              symbolic='one boolean per letter of the id', asserts=['case-variant-valid', 'extract-canonical', 'canonical-spelling', 'case-variant-matches']),
+          grp('case/exceptions', 'VH_case', ej, cost=5, bound='every exception id after MIT WITH, all case masks',
+              symbolic='one boolean per letter', asserts=['case-variant-valid', 'extract-canonical', 'case-variant-matches']),
+          grp('case/deprecated-list', 'VH_case', dj, cost=5, bound='every entry of the deprecated list (including the X+ entries), all case masks',
+              symbolic='one boolean per letter', asserts=['case-variant-valid', 'extract-canonical', 'case-variant-matches'])]
+    if tier == 'thorough':
+        gs.append(grp('case/with-suffix', 'VH_case', vj, cost=5, bound='every id followed by + / WITH exception, all case masks',
+                      symbolic='one boolean per letter', asserts=['case-variant-valid', 'extract-canonical', 'case-variant-matches']))
+    else:
+        gs.append(grp('case/with-suffix', 'VH_case', vj[seed % 4::4], cost=5, bound='a quarter (seed-chosen) of the ids followed by + / WITH exception, all case masks',
+                      symbolic='one boolean per letter', asserts=['case-variant-valid', 'extract-canonical', 'case-variant-matches']))
+    lists = ['active', 'deprecated', 'exception']
+    gs.append(grp('fold-unique', 'VH_foldUnique', [[a, b] for i, a in enumerate(lists) for b in lists[i:]], cost=1,
+                  bound='all pairs of entries of the three lists', symbolic='two list indices', asserts=[]))
+    return gs
+
+
+def c11(tier, seed):
+    return [grp('reach', 'VH_reach', [['0'], ['1']], merge=M, cost=30, bound='X+ against Y / Y+, X and Y over all listed ids',
+                symbolic='ids X, Y', asserts=['plus-stays-in-family', 'plus-reaches-iff-later', 'valid-terms-accepted']),
+            grp('table-well-formed', 'VH_tableWellFormed', [[]], cost=2, bound='all pairs of positions of the shipped family table',
+                symbolic='two table positions', asserts=['entry-listed', 'entry-at-one-position', 'family-one-key', 'group-one-version', 'groups-ascending']),
+            grp('table-lookup', 'VH_tableLookup', [[]], merge=M, cost=30, bound='all pairs of table positions through Satisfies',
+                symbolic='two table positions', asserts=['entry-at-own-position', 'valid-terms-accepted'])]
+
+
+def c12(tier, seed):
+    lists = ['active', 'deprecated', 'exception']
+    return [grp('fold-unique-disjoint', 'VH_foldUnique', [[a, b] for i, a in enumerate(lists) for b in lists[i:]], cost=1,
+                bound='all pairs of entries of the three lists', symbolic='two list indices', asserts=[]),
+            grp('listed', 'VH_listed', [[l] for l in lists], merge=M, cost=10, bound='every entry of each list', symbolic='list index',
+                asserts=['id-accepted', 'exception-after-with', 'exception-after-with-only'])]
+
+
+# ---------------------------------------------------------------- trees
+
+def trees(n, first=0):
+    """all Polish encodings of binary trees with n leaves numbered first.. left to right"""
+    if n == 1:
+        return [str(first)]
+    out = []
+    for k in range(1, n):
+        for l in trees(k, first):
+            for r in trees(n - k, first + k):
+                out += ['&' + l + r, '|' + l + r]
+    return out
+
+
+MS = ['parse', 'getLicenseRange', 'inLicenseList', 'isCompatible']
+SAT_FUNCS = MATCH_FUNCS + ['expandOr', 'expandAnd', 'expandOrTerm', 'expandAndTerm', 'appendTerms', 'mergeTerms', 'deepSort', 'sortLicenses',
+                           'parseExpression', 'parseAnd', 'parseAtom', 'parseParenthesizedExpression', 'parseLicenseRef', 'parseTokens']
+KINDS_ALL = 'LPWODRl'
+
+
+def kind_profiles(n, seed, rich):
+    """kind strings for n leaves: all-license, all-ref, one special kind at each position, mixed"""
+    out = ['L' * n]
+    if n == 1:
+        return list(KINDS_ALL)
+    if n == 2:
+        return [a + b for a in KINDS_ALL for b in KINDS_ALL] if rich else [a + b for a in 'LWRD' for b in 'LPRO']
+    out.append('R' * n)
+    for i in range(n):
+        for k in ('R', 'W') if not rich else 'PWODRl':
+            out.append('L' * i + k + 'L' * (n - i - 1))
+    out.append(''.join('LR'[i % 2] for i in range(n)))
+    out.append(''.join('RL'[i % 2] for i in range(n)))
+    out.append(''.join('LPWD'[(i + seed) % 4] for i in range(n)))
+    if rich:
+        out.append(''.join('DRLO'[(i + seed) % 4] for i in range(n)))
+        out.append(''.join('WWPl'[(i + seed) % 4] for i in range(n)))
+    seen, res = set(), []
+    for k in out:
+        if k not in seen:
+            seen.add(k)
+            res.append(k)
+    return res
+
+
+def ident_profiles(n, rich):
+    asc = ''.join(str(i) for i in range(n))
+    out = [asc, asc[::-1]]
+    if n >= 2:
+        out.append(''.join(str(i % 2) for i in range(n)))     # repetition 0101
+    if rich and n >= 3:
+        out.append('0' * n)
+        out.append(''.join(str(i // 2) for i in range(n)))    # 0011
+    return out
+
+
+def sat_jobs(tier, seed, for_extract=False):
+    """(group name, jobs) for the L-SAT family"""
+    groups = []
+    thorough = tier == 'thorough'
+    def add(name, n, kinds, idents, modes, m, big, subset, cost):
+        jobs = []
+        for enc in trees(n):
+            for k in kinds:
+                for idn in idents:
+                    for mode in modes:
+                        if for_extract:
+                            jobs.append([enc, k, idn, mode])
+                        else:
+                            jobs.append([enc, k, idn, mode, m, big, subset])
+        groups.append((name, jobs, n, m, cost))
+    add('n1', 1, kind_profiles(1, seed, True), ['0'], 'F', 2, 1, 0, 1)
+    add('n2', 2, kind_profiles(2, seed, thorough), ['01', '10', '00'], 'FM', 2, 1, 0, 1)
+    if thorough:
+        add('n3', 3, kind_profiles(3, seed, True), ident_profiles(3, True), 'FM', 3, 0, 0, 3)
+        add('n3-big-universe', 3, ['LLL', 'LPW', 'RLD', 'OlP', 'WDR'], ['012', '011'], 'M', 2, 1, 0, 3)
+        add('n4', 4, kind_profiles(4, seed, True), ident_profiles(4, True), 'FM', 3, 0, 1, 3)
+        add('n4-all-orders', 4, ['LLLL', 'LRLR'], ['0123'], 'M', 3, 0, 0, 8)
+        add('n5', 5, kind_profiles(5, seed, False), ['01234', '43210'], 'F', 4, 0, 1, 5)
+        add('n5-m5', 5, ['LLLLL', 'LRLRL'], ['01234'], 'M', 5, 0, 1, 6)
+        t6 = trees(6)
+        groups.append(('n6-third', [[e, 'LLLLLL', '012345', 'F', 5, 0, 1] if not for_extract else [e, 'LLLLLL', '012345', 'F'] for e in t6[seed % 3::3]], 6, 5, 30))
+    else:
+        add('n3', 3, kind_profiles(3, seed, False), ident_profiles(3, False)[:2], 'FM', 3, 0, 1, 3)
+        add('n3-all-orders', 3, ['LLL', 'LRL', 'RWL'], ['012', '010'], 'M', 3, 0, 0, 3)
+        add('n3-big-universe', 3, ['LLL', 'LPW', 'RLD', 'OlP'], ['012', '011'], 'M', 2, 1, 0, 3)
+        add('n4', 4, ['LLLL', 'RRRR', 'LRLR', 'RLLL', 'LLLR', 'LWPD'], ['0123', '3210'], 'F', 3, 0, 1, 3)
+        add('n5', 5, ['LLLLL'], ['01234'], 'F', 4, 0, 1, 5)
+    return groups
+
+
+def c01(tier, seed):
+    gs = []
+    for name, jobs, n, m, cost in sat_jobs(tier, seed):
+        gs.append(grp('L-SAT/' + name, 'VH_sat', jobs, merge=MS, cost=cost,
+                      bound='%d trees x kinds x identities with %d leaves; allowed list of %d entries over the universe of the leaves, their re-spellings and family neighbours' % (len(jobs), n, m),
+                      symbolic='%d allowed entries (choice variables over the universe)' % m,
+                      asserts=['no-error-on-valid', 'satisfies-iff-boolean-eval']))
+    return gs
+
+
+def c06(tier, seed):
+    gs = []
+    for name, jobs, n, m, cost in sat_jobs(tier, seed, for_extract=True):
+        if name in ('n3-big-universe', 'n4-all-orders', 'n5-m5', 'n3-all-orders'):
+            continue
+        gs.append(grp('extract/' + name, 'VH_extract', jobs, cost=1, bound='%d trees x kinds x identities with %d leaves' % (len(jobs), n),
+                      symbolic='none beyond path feasibility: the quantifier is over tree shapes, enumerated as jobs/paths',
+                      asserts=['no-error-on-valid', 'no-duplicates', 'no-term-missing', 'no-term-invented', 'returned-is-valid', 'returned-is-fixpoint', 'self-satisfying']))
+    return gs
+
+
+def c07(tier, seed):
+    gs = []
+    thorough = tier == 'thorough'
+    for n, kinds, m, big in ((1, ['L', 'P', 'W', 'R', 'O'], 3, 1), (2, ['LL', 'LR', 'PW', 'OD'], 3, 1), (3, ['LLL', 'LRW', 'PLO'], 2 if not thorough else 3, 1),
+                             (4, ['LLLL', 'LRLR'] if thorough else ['LLLL'], 2, 0)):
+        ts = trees(n)
+        if n == 4 and not thorough:
+            ts = ts[seed % 4::4]
+        for aspect in ('perm', 'dup', 'respell', 'mono'):
+            mm = m
+            if aspect in ('perm', 'dup') and n >= 3:
+                mm = min(m, 3)
+            jobs = [[enc, k, ''.join(str(i) for i in range(n)) if n < 3 else idn, 'M', mm, big, aspect] for enc in ts for k in kinds
+                    for idn in ([''.join(str(i) for i in range(n))] + (['010', '0110'][n - 3:n - 2] if n >= 3 else []))]
+            gs.append(grp('set/n%d/%s' % (n, aspect), 'VH_set', jobs, merge=MS, cost=4 * n,
+                          bound='%d expressions with %d leaves; allowed list of %d entries (+1 extension) over the big universe' % (len(jobs), n, mm),
+                          symbolic='allowed entries and the extension entry (choice variables)', asserts=['no-error-on-valid']))
+    return gs
+
+
+def rewrites(n_max, seed):
+    """(lhs, rhs, nleaves, same_terms) pairs: single Boolean-algebra steps on small trees, placed in a context"""
+    out = []
+    A, B, C = '0', '1', '2'
+    for op, dual in (('&', '|'), ('|', '&')):
+        out.append((op + A + B, op + B + A, 2, True, 'commutativity'))
+        out.append((op + op + A + B + C, op + A + op + B + C, 3, True, 'associativity'))
+        out.append((op + A + A, A, 1, True, 'idempotence'))
+        out.append((op + A + dual + A + B, A, 2, False, 'absorption'))
+        out.append((op + A + dual + B + C, dual + op + A + B + op + A + C, 3, True, 'distribution'))
+        out.append((op + dual + B + C + A, dual + op + B + A + op + C + A, 3, True, 'distribution-right'))
+    res = []
+    for l, r, n, same, rule in out:
+        res.append((l, r, n, same, rule))
+        if n + 1 <= n_max:
+            x = str(n)
+            for cop in '&|':
+                res.append((cop + l + x, cop + r + x, n + 1, same, rule + ' under ' + cop))
+                res.append((cop + x + l, cop + x + r, n + 1, same, rule + ' under ' + cop))
+        if n + 2 <= n_max:
+            x, y = str(n), str(n + 1)
+            for c1 in '&|':
+                for c2 in '&|':
+                    res.append((c1 + x + c2 + l + y, c1 + x + c2 + r + y, n + 2, same, rule + ' nested'))
+    return res
+
+
+def c10(tier, seed):
+    thorough = tier == 'thorough'
+    gs = []
+    hj = []
+    for ne in (1, 2, 3):
+        for nf in (1, 2, 3):
+            if ne + nf > (4 if not thorough else 5):
+                continue
+            for e in trees(ne):
+                for f in trees(nf, ne):
+                    for k in (['L' * (ne + nf), ('LR' * 3)[:ne + nf]] if ne + nf <= 3 or thorough else ['L' * (ne + nf)]):
+                        hj.append([e, f, k, ''.join(str(i) for i in range(ne + nf)), 'M', 2 if ne + nf <= 3 else 3, 0])
+    gs.append(grp('homomorphism', 'VH_hom', hj, merge=MS, cost=5, bound='sub-expressions E, F with |E|+|F| <= %d leaves' % (4 if not thorough else 5),
+                  symbolic='allowed entries (choice variables)', asserts=['no-error-on-valid', 'and-homomorphic', 'or-homomorphic']))
+    rj = []
+    for l, r, n, same, rule in rewrites(3 if not thorough else 4, seed):
+        for k in (['L' * n, ('RL' * 3)[:n]] if n <= 3 else ['L' * n]):
+            idn = ''.join(str(i) for i in range(n))
+            rj.append([l, r, k, idn, 'F', 'F', min(3, max(2, n)), 0, 1 if same else 0])
+    # parentheses and spacing only
+    for n in (2, 3):
+        for e in trees(n):
+            idn = ''.join(str(i) for i in range(n))
+            rj.append([e, e, 'L' * n, idn, 'F', 'M', 2, 0, 1])
+            rj.append([e, e, ('LR' * 2)[:n], idn, 'M', 'S', 2, 0, 1])
+    gs.append(grp('rewrites', 'VH_rewrite', rj, merge=MS, cost=5, bound='single rewrite steps (commutativity, associativity, idempotence, absorption, distribution, parentheses, spacing) on trees of <= %d leaves incl. context' % (5 if thorough else 4),
+                  symbolic='allowed entries (choice variables)', asserts=['no-error-on-valid', 'rewrite-preserves-verdict', 'rewrite-preserves-terms']))
+    return gs
 
 
 PROPS = {
-    'C03': dict(groups=c03, panics_violate=True, functions=PARSE_FUNCS,
-                outside='token sequences longer than the bound; stack or memory exhaustion on very long or deeply nested text'),
-    'C05': dict(groups=c05, functions=PARSE_FUNCS,
-                outside='token sequences longer than the bound'),
+    'C01': dict(groups=c01, functions=SAT_FUNCS, outside='trees with more leaves than the bound; allowed lists with more entries than m (for license-only trees m >= number of leaves needed by one alternative); leaf ids outside the pools (connected through C02/C08/C09, which quantify over all ids)'),
+    'C06': dict(groups=c06, functions=SAT_FUNCS + ['ExtractLicenses', 'flatten', 'removeDuplicateStrings'], outside='trees with more leaves than the bound'),
+    'C07': dict(groups=c07, functions=SAT_FUNCS, outside='lists of more than 3 entries (+1); re-spellings other than case / spaces / parentheses'),
+    'C10': dict(groups=c10, functions=SAT_FUNCS + ['ExtractLicenses'], outside='rewrite instances with more leaves than the bound; sequences of rewrites follow by transitivity, rewrites at depth by the homomorphism clause'),
+    'C02': dict(groups=c02, functions=MATCH_FUNCS, outside='exception ids other than the two chosen by the seed (all exceptions are covered for a 12-id universe in thorough); ids that sit at more than one table position (reported by C11)'),
+    'C08': dict(groups=c08, functions=MATCH_FUNCS, outside='contexts other than the listed ones (by C01 the verdict depends on the match atoms only)'),
+    'C09': dict(groups=c09, functions=MATCH_FUNCS + ['ExtractLicenses'], outside='operators, reference prefixes, the -only/-or-later suffixes, user reference names (excluded by the statement)'),
+    'C11': dict(groups=c11, functions=MATCH_FUNCS, outside='ids whose text does not follow base-version[-qualifier]; families the table does not cover at all'),
+    'C12': dict(groups=c12, functions=MATCH_FUNCS, outside='generator and JSON agreement: see DESIGN.md (not yet built)'),
+    'C03': dict(groups=c03, panics_violate=True, assert_violations=False, functions=PARSE_FUNCS + LEX_FUNCS + ['Satisfies', 'ExtractLicenses', 'ValidateLicenses', 'expand*', 'appendTerms', 'mergeTerms'],
+                outside='token sequences, id runs, byte strings and trees beyond the bounds except through the one-step lexer induction; stack or memory exhaustion on very long or deeply nested text'),
+    'C04': dict(groups=c04, functions=PARSE_FUNCS + LEX_FUNCS + ['Satisfies', 'ExtractLicenses', 'ValidateLicenses', 'stringsToNodes'],
+                outside='strings longer than 4-5 arbitrary bytes or 3-4 tokens; lists longer than 3-4; paths on which the library panics are excluded here and reported by C03'),
+    'C05': dict(groups=c05, functions=PARSE_FUNCS + LEX_FUNCS,
+                outside='token sequences longer than the bound; id runs longer than the bound; abstention zones of the lexer oracle (suffix on a deprecated-only or exception id, case variants of the suffix, keyword glued to an id character)'),
+    'C13': dict(groups=c13, race=True, functions=SAT_FUNCS + ['ExtractLicenses', 'ValidateLicenses'],
+                outside='enumeration of schedules (replaced by frame + non-interference, confirmed by an 8-goroutine run under the race detector on every replayed witness); inputs beyond the bounds'),
+    'C15': dict(groups=c15, functions=LEX_FUNCS + ['ExtractLicenses', 'fmt.Sprintf model'],
+                outside='prefixes other than the 12 templates; culprits longer than the bound'),
 }
